@@ -11,7 +11,8 @@
 (* marks "unknown" (no verdict) rather than guessing the language.              *)
 EXTENDS Integers, Sequences, TLC, Json
 
-CONSTANTS MaxItems      \* bound on the number of items explored
+CONSTANTS MaxItems,     \* bound on the number of items explored
+          Use           \* the catalogue entries a configuration puts into lists
 
 \* the scalar catalogue: text as written, JSON kind, denoted string (strings only), exponent form?
 Cat == << [text |-> "1",          kind |-> "integer", str |-> "",    exp |-> FALSE],
@@ -25,7 +26,15 @@ Cat == << [text |-> "1",          kind |-> "integer", str |-> "",    exp |-> FAL
           [text |-> "true",       kind |-> "boolean", str |-> "",    exp |-> FALSE],
           [text |-> "null",       kind |-> "null",    str |-> "",    exp |-> FALSE],
           [text |-> "-0",         kind |-> "integer", str |-> "",    exp |-> FALSE],
-          [text |-> "1e2",        kind |-> "float",   str |-> "",    exp |-> TRUE] >>
+          [text |-> "1e2",        kind |-> "float",   str |-> "",    exp |-> TRUE],
+          \* 13..: signs, a literal and the string that spells it, the other boolean
+          [text |-> "-1",         kind |-> "integer", str |-> "",    exp |-> FALSE],
+          [text |-> "\"-1\"",     kind |-> "string",  str |-> "-1",  exp |-> FALSE],
+          [text |-> "-1.5",       kind |-> "float",   str |-> "",    exp |-> FALSE],
+          [text |-> "0",          kind |-> "integer", str |-> "",    exp |-> FALSE],
+          [text |-> "false",      kind |-> "boolean", str |-> "",    exp |-> FALSE],
+          [text |-> "\"true\"",   kind |-> "string",  str |-> "true", exp |-> FALSE],
+          [text |-> "\"null\"",   kind |-> "string",  str |-> "null", exp |-> FALSE] >>
 Ids == 1..Len(Cat)
 
 Same(i, j) == \/ Cat[i].text = Cat[j].text
@@ -88,7 +97,7 @@ Scalar(i) ==
           ELSE ctl' = "after" /\ items' = Append(items, i) /\ UNCHANGED <<ret, status>>
      ELSE IF ctl = "eol" THEN Unknown ELSE Fail
 
-Next == (\E t \in Plain : Tok(t)) \/ (\E i \in Ids : Scalar(i))
+Next == (\E t \in Plain : Tok(t)) \/ (\E i \in Use : Scalar(i))
 Spec == Init /\ [][Next]_vars
 
 \* end of input
